@@ -178,8 +178,11 @@ func (c *Case) Exec(t *eng.T) {
 		s, err := tpl.Execute(mkctx())
 		rs = append(rs, res{"Execute", s, err, nil})
 	}
+	var keptBytes []byte
+	var keptCopy string
 	{
 		b, err := fresh().ExecuteBytes(mkctx())
+		keptBytes, keptCopy = b, string(b)
 		rs = append(rs, res{"ExecuteBytes", string(b), err, nil})
 	}
 	mkw := func() *faultWriter {
@@ -201,6 +204,15 @@ func (c *Case) Exec(t *eng.T) {
 		rs = append(rs, res{"ExecuteWriterUnbuffered", string(w.buf), err, w})
 	}
 	t.Outcome(fmt.Sprintf("%v|%q|%q|%q|%q", wantFail, rs[0].out, rs[1].out, rs[2].out, rs[3].out))
+	// the bytes handed out by ExecuteBytes belong to the caller: the executions that followed must not have changed them
+	if other, err := pongo2.FromString("a completely different output {{ 1 }} that is longer than anything the programs print: 0123456789 0123456789 0123456789 0123456789"); err == nil {
+		other.Execute(nil)
+		other.ExecuteBytes(nil)
+	}
+	fresh().Execute(mkctx())
+	if string(keptBytes) != keptCopy {
+		t.Fail("bytes-result-overwritten:"+c.Wrapper, "%s: the slice returned by ExecuteBytes was %q and reads %q after later executions", c.ID(), keptCopy, string(keptBytes))
+	}
 	key := func(s string) string { return s + ":" + c.Wrapper + ":" + c.Fault }
 
 	// Execute / ExecuteBytes: never see the writer
